@@ -1458,6 +1458,237 @@ theorem call_perSpec_ignore [DecidableEq L] (labels : List L) (n : Nat) (o : Out
       .ok ⟨parts.map (expectedMatrix labels (keptPositions n (callerRows c.caller)) o), c.caller⟩ :=
   call_perSpec_stable labels n .ignore o parts c hl hwf hc h0 (fun _ _ => evalFactors_ignore _ _)
 
+/-! ### the caller's set object after a call, whatever its outcome -/
+
+theorem evalFactorsSt_spec (v : Variant) (p : Policy) (fs : List (Factor ρ)) (d : DropSet) :
+    evalFactors v p fs d =
+      match evalFactorsSt v p fs d with
+      | (d1, none) => .ok d1
+      | (_, some e) => .error e := by
+  induction fs generalizing d with
+  | nil => rfl
+  | cons f r ih =>
+    simp only [evalFactors, evalFactorsSt]
+    cases checkFactor v p f d with
+    | error e => rfl
+    | ok d' => exact ih d'
+
+/-- under RAISE and IGNORE a null check that passes leaves the set as it is -/
+theorem checkFactor_keeps (v : Variant) (pol : Policy) (hpol : pol ≠ .drop) (f : Factor ρ)
+    (d d' : DropSet) (h : checkFactor v pol f d = .ok d') : d' = d := by
+  cases pol with
+  | drop => exact absurd rfl hpol
+  | ignore =>
+    simp only [checkFactor, Except.ok.injEq] at h
+    exact h.symm
+  | raise =>
+    simp only [checkFactor] at h
+    cases hn : findNulls v f.value with
+    | error e => simp [hn] at h
+    | ok ns =>
+      simp only [hn, checkForNulls] at h
+      split at h
+      · simp only [Except.ok.injEq] at h
+        exact h.symm
+      · cases h
+
+theorem evalFactorsSt_keeps (v : Variant) (pol : Policy) (hpol : pol ≠ .drop) (fs : List (Factor ρ))
+    (d : DropSet) : (evalFactorsSt v pol fs d).1 = d := by
+  induction fs with
+  | nil => rfl
+  | cons f r ih =>
+    simp only [evalFactorsSt]
+    cases hc : checkFactor v pol f d with
+    | error e => rfl
+    | ok d' =>
+      simp only
+      rw [checkFactor_keeps v pol hpol f d d' hc]
+      exact ih
+
+theorem getModelMatrix_set [DecidableEq L] (v : Variant) (labels : List L) (n : Nat) (pol : Policy)
+    (o : Output) (parts : List (Part ρ)) (d : DropSet) (ms : List (Matrix L ρ)) (d1 : DropSet)
+    (h : getModelMatrix v labels n pol o parts (some d) = .ok (ms, d1)) :
+    evalFactorsSt v pol (parts.flatMap (·.factors)) d = (d1, none) := by
+  unfold getModelMatrix at h
+  rw [evalFactorsSt_spec] at h
+  simp only [initialSet] at h
+  rcases hst : evalFactorsSt v pol (parts.flatMap (·.factors)) d with ⟨dd, oe⟩
+  rw [hst] at h
+  cases oe with
+  | some e => simp at h
+  | none =>
+    simp only at h
+    cases hm : mapE (buildModelMatrix v labels n o (sorted dd)) parts with
+    | error e => rw [hm] at h; cases h
+    | ok ms' =>
+      rw [hm] at h
+      simp only [Except.ok.injEq, Prod.mk.injEq] at h
+      rw [← h.2]
+      exact hst
+
+theorem passSetAfter_keeps [DecidableEq L] (v : Variant) (labels : List L) (n : Nat) (pol : Policy)
+    (hpol : pol ≠ .drop) (o : Output) (parts : List (Part ρ)) (d : DropSet) :
+    (passSetAfter v labels n pol o parts d).1 = d := by
+  induction parts with
+  | nil => rfl
+  | cons p r ih =>
+    simp only [passSetAfter]
+    cases hg : getModelMatrix v labels n pol o [p] (some d) with
+    | error e => exact evalFactorsSt_keeps v pol hpol _ d
+    | ok res =>
+      obtain ⟨ms, d1⟩ := res
+      have h1 := getModelMatrix_set v labels n pol o [p] d ms d1 hg
+      have h2 := evalFactorsSt_keeps v pol hpol ([p].flatMap (·.factors)) d
+      rw [h1] at h2
+      simp only at h2
+      subst h2
+      exact ih
+
+/-- RAISE and IGNORE never touch the caller's set — for ALL inputs, on every entry point, whether the
+call returns or raises (a null, a null constant, an unknown type, an encoding error …). -/
+theorem setAfterCall_keeps [DecidableEq L] (labels : List L) (n : Nat) (pol : Policy)
+    (hpol : pol ≠ .drop) (o : Output) (parts : List (Part ρ)) (c : CallRec) :
+    setAfterCall current labels n pol o parts c = c.caller := by
+  unfold setAfterCall
+  cases hc : c.caller with
+  | none => rfl
+  | some s =>
+    simp only [route_current, hc]
+    by_cases h1 : oneCall c = true
+    · simp only [h1, if_true, gmmSetAfter, evalFactorsSt_keeps current pol hpol]
+    · have h0 : oneCall c = false := by simpa using h1
+      simp only [h0, Bool.false_eq_true, if_false]
+      have hk := passSetAfter_keeps current labels n pol hpol o parts s
+      rcases hp : passSetAfter current labels n pol o parts s with ⟨d1, ok⟩
+      rw [hp] at hk
+      simp only at hk
+      subst hk
+      simp [current]
+
+theorem passSetAfter_of_ok [DecidableEq L] (v : Variant) (labels : List L) (n : Nat) (pol : Policy)
+    (o : Output) (parts : List (Part ρ)) (d : DropSet) (ms : List (Matrix L ρ))
+    (dEnd : Option DropSet) (h : perPartCalls v labels n pol o parts (some d) = .ok (ms, dEnd)) :
+    ∃ dF, dEnd = some dF ∧ passSetAfter v labels n pol o parts d = (dF, true) := by
+  induction parts generalizing d ms dEnd with
+  | nil =>
+    simp only [perPartCalls, Except.ok.injEq, Prod.mk.injEq] at h
+    exact ⟨d, h.2.symm, rfl⟩
+  | cons p r ih =>
+    simp only [perPartCalls] at h
+    cases hg : getModelMatrix v labels n pol o [p] (some d) with
+    | error e => rw [hg] at h; cases h
+    | ok res =>
+      obtain ⟨ms1, d1⟩ := res
+      rw [hg] at h
+      simp only [carry] at h
+      cases hr : perPartCalls v labels n pol o r (some d1) with
+      | error e => rw [hr] at h; cases h
+      | ok res2 =>
+        obtain ⟨rest, dE⟩ := res2
+        rw [hr] at h
+        simp only [Except.ok.injEq, Prod.mk.injEq] at h
+        obtain ⟨dF, h1, h2⟩ := ih d1 rest dE hr
+        refine ⟨dF, by rw [← h.2, h1], ?_⟩
+        simp only [passSetAfter, hg, h2]
+
+/-- When a call returns, the set object holds what the call reports. -/
+theorem setAfterCall_of_ok [DecidableEq L] (labels : List L) (n : Nat) (pol : Policy) (o : Output)
+    (parts : List (Part ρ)) (c : CallRec) (r : CallOut L ρ)
+    (h : call current labels n pol o parts c = .ok r) :
+    setAfterCall current labels n pol o parts c = r.callerAfter := by
+  unfold setAfterCall
+  unfold call at h
+  rw [route_current] at h ⊢
+  cases hc : c.caller with
+  | none =>
+    rw [hc] at h
+    by_cases h1 : oneCall c = true
+    · simp only [h1, if_true] at h
+      cases hg : getModelMatrix current labels n pol o parts none with
+      | error e => rw [hg] at h; cases h
+      | ok res =>
+        obtain ⟨ms, d1⟩ := res
+        rw [hg] at h
+        simp only [Except.ok.injEq] at h
+        rw [← h]
+    · have h0 : oneCall c = false := by simpa using h1
+      simp only [h0, Bool.false_eq_true, if_false, current, if_true] at h
+      cases hp : perPartCalls current labels n pol o parts (some (initialSet none)) with
+      | error e => unfold current at hp; rw [hp] at h; cases h
+      | ok res =>
+        obtain ⟨ms, dEnd⟩ := res
+        unfold current at hp
+        rw [hp] at h
+        simp only at h
+        split at h
+        · split at h
+          · cases h
+          · simp only [Except.ok.injEq] at h
+            rw [← h]
+        · simp only [Except.ok.injEq] at h
+          rw [← h]
+  | some s =>
+    rw [hc] at h
+    by_cases h1 : oneCall c = true
+    · simp only [h1, if_true] at h ⊢
+      cases hg : getModelMatrix current labels n pol o parts (some s) with
+      | error e => rw [hg] at h; cases h
+      | ok res =>
+        obtain ⟨ms, d1⟩ := res
+        rw [hg] at h
+        simp only [Except.ok.injEq] at h
+        rw [← h]
+        simp only [gmmSetAfter, getModelMatrix_set current labels n pol o parts s ms d1 hg]
+    · have h0 : oneCall c = false := by simpa using h1
+      simp only [h0, Bool.false_eq_true, if_false, current, if_true, initialSet] at h ⊢
+      cases hp : perPartCalls current labels n pol o parts (some s) with
+      | error e => unfold current at hp; rw [hp] at h; cases h
+      | ok res =>
+        obtain ⟨ms, dEnd⟩ := res
+        obtain ⟨dF, hdE, hpass⟩ := passSetAfter_of_ok current labels n pol o parts s ms dEnd hp
+        unfold current at hp hpass
+        rw [hp] at h
+        subst hdE
+        simp only at h
+        simp only [hpass, Bool.true_and]
+        by_cases hlen : (dF.length != s.length) = true
+        · simp only [hlen, if_true] at h ⊢
+          cases hp2 : perPartCalls current labels n pol o parts (some dF) with
+          | error e => unfold current at hp2; rw [hp2] at h; cases h
+          | ok res2 =>
+            obtain ⟨ms2, dEnd2⟩ := res2
+            obtain ⟨dF2, hdE2, hpass2⟩ := passSetAfter_of_ok current labels n pol o parts dF ms2 dEnd2 hp2
+            unfold current at hp2 hpass2
+            rw [hp2] at h
+            subst hdE2
+            simp only [Except.ok.injEq] at h
+            rw [← h, hpass2]
+        · simp only [hlen, Bool.false_eq_true, if_false, Except.ok.injEq] at h ⊢
+          rw [← h]
+
+/-- DROP: whatever a (possibly failing) step 1 leaves in the set is what was there plus rows that
+`find_nulls` flagged in some factor -/
+theorem evalFactorsSt_drop_bounds (fs : List (Factor ρ)) (d : DropSet) :
+    (∀ i ∈ d, i ∈ (evalFactorsSt current .drop fs d).1) ∧
+    (∀ i ∈ (evalFactorsSt current .drop fs d).1, i ∈ d ∨ i ∈ fs.flatMap nullsOf) := by
+  induction fs generalizing d with
+  | nil => exact ⟨fun i hi => hi, fun i hi => Or.inl hi⟩
+  | cons f r ih =>
+    simp only [evalFactorsSt, checkFactor]
+    cases hn : findNulls current f.value with
+    | error e => exact ⟨fun i hi => hi, fun i hi => Or.inl hi⟩
+    | ok ns =>
+      have hno : nullsOf f = ns := by simp [nullsOf, hn]
+      simp only [checkForNulls]
+      obtain ⟨h1, h2⟩ := ih (setUpdate d ns)
+      refine ⟨fun i hi => h1 i ((mem_setUpdate ns d i).2 (Or.inl hi)), ?_⟩
+      intro i hi
+      rcases h2 i hi with h | h
+      · rcases (mem_setUpdate ns d i).1 h with h | h
+        · exact Or.inl h
+        · exact Or.inr (by simp [List.flatMap_cons, hno, h])
+      · exact Or.inr (by simp [List.flatMap_cons, h])
+
 /-! ### the legacy label-based drop -/
 
 theorem labelsAt_eq (labels : List L) (d : List Nat) (hd : ∀ i ∈ d, i < labels.length) :
